@@ -618,7 +618,19 @@ func (r *runner) fuzzRun(target string, budget, workers int, tr *targetResult) {
 			return // watchdog verdicts were produced by confirmHang; the budget is not resumed after a hang
 		}
 		if len(newFiles) == 0 {
-			if key, msg, stack := classifyCrash(target, res.out+"\n"+workerCrashDump(rep)); key != "" {
+			key, msg, stack := classifyCrash(target, res.out+"\n"+workerCrashDump(rep))
+			if strings.Contains(msg, "deadlocked!") {
+				// the engine's 10 s wall-clock timer killed a worker and the engine could not
+				// even attribute an input ("communicating with fuzzing process: EOF"): every
+				// seed passed this check's CPU-time watchdog in the seed run, so this is load
+				c.Count("engine_wallclock_timer_kills_not_confirmed", 1)
+				tr.BenignRestarts++
+				if tr.BenignRestarts > 4*maxRestarts {
+					break
+				}
+				continue
+			}
+			if key != "" {
 				c.Fail(key, fmt.Sprintf("%s: fuzz process died: %s | %s", target, msg, firstLines(stackAfterPanic(stack), 8)), map[string]any{"target": target, "output": tail(res.out, 3000)})
 			} else {
 				c.Broken("%s: fuzz run failed without crasher: %s", target, tail(res.out, 1500))
